@@ -1119,14 +1119,18 @@ std::string g_prop = "C09";
 bool g_huge_length = false;
 // ... and: elements nested at least 5000 deep (the schema parser, the validator and the generators recurse
 // per nesting level without a bound)
-bool g_deep_nesting = false;
+long g_nesting_depth = 0; // deepest element nesting of the staged input files
 std::string resource_suffix()
 {
     return g_huge_length ? ":huge-length-attribute" : "";
 }
-std::string nesting_suffix()
+// The stack overflows from several thousand levels on (earlier in the sanitizer flavour, whose frames are larger);
+// the cost of compiling nested groups explodes long before that (160 levels 3 s, 320 levels 83 s), so for the CPU
+// budget a few hundred levels are already "deep". Depths between the generated extremes arise when a second edit
+// cuts into a nest of 30000 (seen in the thorough tier: nest 60000, then an element deleted at level 4745).
+std::string nesting_suffix(long at_least)
 {
-    return g_deep_nesting ? ":deep-nesting" : "";
+    return g_nesting_depth >= at_least ? ":deep-nesting" : "";
 }
 int g_saved_stdout = -1, g_saved_stderr = -1;
 void restore_stdout()
@@ -1311,7 +1315,7 @@ void on_fatal_signal(int sig)
         return;
     }
     g.active = false;
-    sim::crash_report(g_prop + ":CRASH:" + name + (sig == SIGVTALRM ? resource_suffix() + nesting_suffix() : sig == SIGSEGV ? nesting_suffix() : ""), sig == SIGVTALRM ? "sbeppc exceeded its CPU budget" : std::string("sbeppc died with ") + name + (sig == SIGSEGV ? " (stack overflow if recursion is unbounded)" : ""));
+    sim::crash_report(g_prop + ":CRASH:" + name + (sig == SIGVTALRM ? resource_suffix() + nesting_suffix(150) : sig == SIGSEGV ? nesting_suffix(1000) : ""), sig == SIGVTALRM ? "sbeppc exceeded its CPU budget" : std::string("sbeppc died with ") + name + (sig == SIGSEGV ? " (stack overflow if recursion is unbounded)" : ""));
 }
 
 void install_handlers()
@@ -2043,9 +2047,26 @@ void apply_mutation(const Op& op)
                 if(nm == "name") names.push_back(k);
             }
             if(refs.empty() || names.empty()) return;
-            const Attr& r = attrs[refs[(size_t)(op.uarg(0) % refs.size())]];
+            // The victim is drawn by attribute kind first, then among the attributes of that kind: a schema has
+            // hundreds of `type=` and a handful of `primitiveType=` / `encodingType=` / `dimensionType=`, and a
+            // uniform draw over all of them hardly ever retargets the rare kinds (seeded change C09-B3 was caught
+            // by 3 of 120 000 plans and by none after the generator had changed).
+            std::vector<std::string> kinds;
+            for(size_t k : refs)
+                if(std::find(kinds.begin(), kinds.end(), name_of(attrs[k])) == kinds.end()) kinds.push_back(name_of(attrs[k]));
+            const std::string kind = kinds[(size_t)((op.uarg(0) / 7) % kinds.size())];
+            std::vector<size_t> of_kind;
+            for(size_t k : refs)
+                if(name_of(attrs[k]) == kind) of_kind.push_back(k);
+            const Attr& r = attrs[of_kind[(size_t)(op.uarg(0) % of_kind.size())]];
             const Attr& s = attrs[names[(size_t)(op.uarg(1) % names.size())]];
             std::string v = d.substr(s.val_b, s.val_e - s.val_b);
+            if(op.uarg(1) % 6 == 5)
+            {
+                // ... or a name nothing in the file carries
+                static const char* const kStrange[] = {"uint128", "", "INT32", "int 8", "float64", "Char", "uint8_t", "group", "sbe:messageSchema"};
+                v = kStrange[(op.uarg(1) / 6) % (sizeof(kStrange) / sizeof(kStrange[0]))];
+            }
             if(name_of(r) == "valueRef")
             {
                 // valueRef has the form Enum.Value: pick an enum of the file and one of its values
@@ -2988,7 +3009,7 @@ Result exec_plan(const Plan& plan)
                     if(digits >= 7) g_huge_length = true;
                 }
             }
-            g_deep_nesting = false;
+            g_nesting_depth = 0;
             for(auto& kv : g.fs)
             {
                 if(kv.second.dir || kv.first.rfind("/sim/in/", 0) != 0) continue;
@@ -3006,7 +3027,7 @@ Result exec_plan(const Plan& plan)
                     }
                     deepest = std::max(deepest, depth);
                 }
-                if(deepest >= 5000) g_deep_nesting = true;
+                g_nesting_depth = std::max(g_nesting_depth, deepest);
             }
             perturb_heap(pr.heap);
             g_kill_next = pr.kill;
